@@ -45,6 +45,7 @@ def required(tier):
     from vlib.gridwork import KINDS
     cl = [f'geom:{k}' for k in KINDS] + ['history:regridded-after-many-other-trajectories', 'gridder:object-switched-to-another-grid', 'trajectory:more-than-65536-points', 'axes:alt+time', 'axes:', 'res:fine', 'res:medium',
                                          'res:coarse', 'segment:zero-length',
+                                         'segment:zero-length-in-three-or-more-cells',
                                          'segment:antimeridian', 'segment:many-crossings',
                                          'integrated:integer-typed']
     return {'classes': cl, 'evaluations': 1500}
@@ -112,7 +113,8 @@ def judge(c, rec, Mismatch):
             hi = v * (rho_star + 1e-6 + qtol + ctol)
             if zero:
                 lo = hi = v
-            if not (lo - 1e-12 <= got <= hi + 1e-12):
+            # (rounding of v/count * count when a zero-length segment has many pieces)
+            if not (lo - 1e-12 * max(1.0, v) <= got <= hi + 1e-12 * max(1.0, v)):
                 mech = ('quantity of a zero-length segment is lost' if zero and got < v else
                         'pieces of a segment add up to less than the segment\'s value'
                         if got < lo else
@@ -123,6 +125,8 @@ def judge(c, rec, Mismatch):
                                       'ratio': got / v if v else None, **det})
         if zero:
             rec.cls('segment:zero-length')
+            if len(pcs) >= 3:
+                rec.cls('segment:zero-length-in-three-or-more-cells')
         if 0.0 < seg_len < 1e-2 and len(pcs) >= 2:
             rec.cls('segment:shorter-than-1mm-across-a-grid-line' if seg_len < 1e-3
                     else 'segment:shorter-than-1cm-across-a-grid-line')
